@@ -84,3 +84,59 @@ def dtype_folds(ctx, rule_id="DTYPE-FOLD", floor=4):
     bad = ast.parse("def f(items):\n    t = _np.dtype('float32')\n    for item in items:\n        t = _np.promote_types(_np.dtype('float32'), item.dtype)\n    return _np.zeros(3, dtype=t)\n").body[0]
     s = fold_sites(bad)
     r.must_fire(len(s) == 1 and not s[0][2], "promotion restarted from the floor type at every item")
+
+
+def promote_double(ctx, rule_id="PROMOTE-DOUBLE"):
+    """C18 (single precision agrees with double; `always_promote_to_double` selects the stored precision only):
+    promote_to_double_precision maps float32 -> float64 and complex64 -> complex128 and leaves double precision arrays
+    alone - in particular it never casts a complex array to a real type (NumPy drops the imaginary part with a warning
+    only).  The function is executed abstractly once per dtype world; the dtype of every reachable return is read from
+    the returned expression (`array` itself, `array.astype(T, ...)`, `np.asarray(array, dtype=T)`)."""
+    from . import dispatch
+    from .src import arg_names
+
+    rel = "bempp_cl/api/utils/helpers.py"
+    fn = ctx.repo.mod(rel).fn("promote_to_double_precision")
+    r = ctx.rule(rule_id, "promote_to_double_precision: float32 -> float64, complex64 -> complex128, double precision unchanged (a complex array is never cast to a real type)", 4)
+    a = arg_names(fn)[0]
+    want = {"float32": "float64", "float64": "float64", "complex64": "complex128", "complex128": "complex128"}
+
+    def dtype_of(node, dt):
+        if isinstance(node, ast.Name) and node.id == a:
+            return dt
+        if isinstance(node, ast.Call):
+            f = unparse(node.func).split(".")[-1]
+            kw = {k.arg: k.value for k in node.keywords}
+            tgt = None
+            if f == "astype" and isinstance(node.func, ast.Attribute) and (node.args or "dtype" in kw):
+                src, tgt = dtype_of(node.func.value, dt), (node.args[0] if node.args else kw["dtype"])
+            elif f in ("asarray", "array", "ascontiguousarray", "require") and node.args:
+                src = dtype_of(node.args[0], dt)
+                tgt = kw.get("dtype") or (node.args[1] if len(node.args) > 1 and f != "require" else None)
+                if tgt is None:
+                    return src
+            if tgt is not None:
+                if isinstance(tgt, ast.Constant) and isinstance(tgt.value, str):
+                    return tgt.value
+                if isinstance(tgt, ast.Attribute) and unparse(tgt.value) in ("_np", "np", "numpy"):
+                    return tgt.attr
+                if isinstance(tgt, ast.Name) and tgt.id in ("float", "complex"):
+                    return {"float": "float64", "complex": "complex128"}[tgt.id]
+        raise AnalysisError("promote_to_double_precision: the dtype of `%s` is not read" % unparse(node)[:60])
+
+    for dt, w in want.items():
+        env = {"%s.dtype" % a: dt}
+        for np_ in ("_np", "np"):
+            env["%s.iscomplexobj(%s)" % (np_, a)] = dt.startswith("complex")
+            env["%s.isrealobj(%s)" % (np_, a)] = not dt.startswith("complex")
+            for t_ in want:
+                env["%s.%s" % (np_, t_)] = t_
+                env["%s.dtype('%s')" % (np_, t_)] = t_
+        got = []
+        for node in dispatch.reachable_returns(fn, env):
+            if node is None or isinstance(node, str):
+                got.append("nothing" if node is None else node)
+            else:
+                got.append(dtype_of(node, dt))
+        r.check(got and all(g == w for g in got), "%s array" % dt, rel, fn.name, fn.lineno, "promotion of a %s array" % dt,
+                "a %s array is returned as %s, expected %s%s" % (dt, sorted(set(got)), w, ": the imaginary part is dropped" if dt.startswith("complex") and any(g.startswith("float") for g in got) else ""))
